@@ -404,17 +404,18 @@ Definition has_failed (u : Z) (evs : list event) : bool :=
    request: CANCELED -- unless the wait-pool pass of that same iteration, which
    runs before the request is read, started or failed it *)
 (* [named]: uids named in any request so far; [pend]: named since the last
-   iteration; [late]: uids that arrived after they had been named *)
-Fixpoint c08_walk (ops : list op) (its : list (snap * list Z)) (named pend late prev_pool : list Z)
-  (a1 a2 a3 : bool) : list bool :=
+   iteration; [late]: uids that arrived after they had been named; [old]: uids
+   named in requests consumed by an EARLIER iteration *)
+Fixpoint c08_walk (ops : list op) (its : list (snap * list Z)) (named pend late prev_pool old : list Z)
+  (a1 a2 a3 a4 : bool) : list bool :=
   match ops with
-  | [] => [a1; a2; a3]
-  | CancelMsg us :: r => c08_walk r its (named ++ us) (pend ++ us) late prev_pool a1 a2 a3
+  | [] => [a1; a2; a3; a4]
+  | CancelMsg us :: r => c08_walk r its (named ++ us) (pend ++ us) late prev_pool old a1 a2 a3 a4
   | Arrive l :: r =>
-      c08_walk r its named pend (late ++ filter (fun u => zmem u named) (map r_uid l)) prev_pool a1 a2 a3
+      c08_walk r its named pend (late ++ filter (fun u => zmem u named) (map r_uid l)) prev_pool old a1 a2 a3 a4
   | Iterate _ :: r =>
       match its with
-      | [] => [a1; a2; a3]
+      | [] => [a1; a2; a3; a4]
       | (sn, _) :: its' =>
           let evs := sn_events sn in
           let pool := concat (map snd (sn_pool sn)) in
@@ -423,13 +424,15 @@ Fixpoint c08_walk (ops : list op) (its : list (snap * list Z)) (named pend late 
                                       else true) pend in
           let b2 := forallb (fun e => match e with Canceled u => zmem u named | _ => true end) evs in
           let b3 := forallb (fun e => match e with Started u _ => negb (zmem u late) | _ => true end) evs in
-          c08_walk r its' named [] late pool (a1 && b1) (a2 && b2) (a3 && b3)
+          (* once the iteration that consumed the request is over, a named task is never started *)
+          let b4 := forallb (fun e => match e with Started u _ => negb (zmem u old) | _ => true end) evs in
+          c08_walk r its' named [] late pool named (a1 && b1) (a2 && b2) (a3 && b3) (a4 && b4)
       end
-  | _ :: r => c08_walk r its named pend late prev_pool a1 a2 a3
+  | _ :: r => c08_walk r its named pend late prev_pool old a1 a2 a3 a4
   end.
 
 Definition c08_bits (ops : list op) (its : list (snap * list Z)) : list bool :=
-  c08_walk ops its [] [] [] [] true true true.
+  c08_walk ops its [] [] [] [] [] true true true true.
 
 Definition c08_sched_row (c : cfg) (ns0 : list node) (ops : list op) (its : list (snap * list Z)) : list bool :=
   corr_bit c ns0 ops its :: c08_bits ops its.
